@@ -30,7 +30,7 @@ from ..core import Ctx, Violation, hyp_run, shard_run
 PID = "C14"
 LEVEL = "exploration"
 EXHAUSTIVE = False
-RULE = ("A: histories expanded from (Hypothesis-drawn 62-bit seed, length, own-id kind, clustering level, operation "
+RULE = ("[plus part D: real DHTCommunity nodes learnt from requests, PingChurn steps, neighbours that move to another IP; A's tables audited from outside] A: histories expanded from (Hypothesis-drawn 62-bit seed, length, own-id kind, clustering level, operation "
         "mix): add of nodes whose 20-byte ids are uniform / share exactly L leading bits with our own id (L uniform "
         "0..159, or small, or beyond the current depth) / share a long prefix with an id offered before / repeat an id "
         "offered before (address update) / are real Node ids of pool keys; rtt from {0,..,2.5}, failed 0..5, "
